@@ -90,6 +90,11 @@ impl InstanceState {
     pub fn last_received_time_stamp(&self) -> Time {
         self.last_received_time_stamp
     }
+
+    /// A missed deadline is reported once per period: the next check is due one period later
+    pub fn rearm_deadline(&mut self, period: crate::infrastructure::time::Duration) {
+        self.last_received_time_stamp = self.last_received_time_stamp + period;
+    }
 }
 
 #[cfg(dust_dds_verif)]
